@@ -23,8 +23,8 @@
        NS  NS x op   obs   then (op obs) repeated
    after the NPRE sequential steps TrimOpenConns is called and, from inside
    it (between its candidate snapshot and its selection loop: the fake
-   connections' Stat() is called by the sort), the NS script ops (only ops
-   1..5) are executed synchronously; obs is taken when the trim has returned;
+   connections' Stat() is called by the sort), the NS script ops (ops 1..7,
+   9, 10) are executed synchronously; obs is taken when the trim has returned;
    the case then continues sequentially.
 
    CONCURRENT case (testing only, no theorem):
@@ -393,6 +393,15 @@ Definition worker_op_ok (o : op) : bool :=
   | _ => false
   end.
 
+(* what a during-trim script may contain (everything that is one critical
+   section and needs no clock) *)
+Definition script_op_ok (o : op) : bool :=
+  match o with
+  | Connected _ _ | Disconnected _ _ | TagPeer _ _ _ | UntagPeer _ _ | UpsertTag _ _ _
+  | Protect _ _ | Unprotect _ _ | Bump _ _ _ | DRemove _ _ => true
+  | _ => false
+  end.
+
 Definition arun (cfg : config) (s : astate) (ops : list op) : astate := fold_left (astep cfg) ops s.
 
 (* the trim took its candidates before the script ran: every closed
@@ -672,7 +681,7 @@ Definition decode_during (l : list Z)
                   | Some (x, r4) =>
                       match decode_trace (S (length r4)) (znat np) r4 with
                       | Some post =>
-                          if forallb worker_op_ok script
+                          if forallb script_op_ok script
                           then Some (mkCfg low high grace res ds, znat np, pre, script, x, post) else None
                       | None => None
                       end
